@@ -70,6 +70,30 @@ Definition ok (c : list nop * list dedge) : bool := des_eqb (fold_left nstep (fs
     for j in bad[:3]:
         ctx.broke('correspondence', 'edge-list operation sequence on a real dynamic network: model and implementation disagree', repr(metas[j])[:1200])
     if metas: ctx.sample(dict(kind='network op sequence', **metas[0]))
+    # the binary64 count-down (float_countdown / float_edge_kept over primitive floats): one edge of duration k * dt on a real network, end_pairs
+    # called k + 1 times; presence after each call is compared bit for bit with the model, and with the stated duration (present iff j < k)
+    from fractions import Fraction as F_
+    fterms, fmetas, overrun = [], [], []
+    for dtf in [F_(1, 10), F_(1, 12), F_(1, 52), F_(1, 20), F_(1, 5), F_(1, 4), F_(1, 2), F_(1)]:
+        for k in (range(1, 9) if ctx.tier != 'quick' else rng.sample(range(1, 9), 4)):
+            dt = float(dtf); dur = float(k * dtf)
+            sim = ss.Sim(n_agents=4, networks=ss.RandomNet(n_contacts=0), diseases=ss.SIS(), dt=dt, verbose=0, rand_seed=k)
+            sim.init(); net = sim.networks.randomnet
+            for kk in net.meta_keys(): net.edges[kk] = net.edges[kk][:0]
+            net.append(p1=np.array([0]), p2=np.array([1]), beta=np.ones(1, dtype=np.float32), dur=np.array([dur], dtype=np.float64))
+            if net.edges.dur.dtype != np.float64: continue
+            ctx.count(('float-countdown', str(dtf), k)); ctx.dist('binary64 count-down')
+            for j in range(1, k + 2):
+                net.end_pairs(); present = len(net.edges.p1) == 1
+                fterms.append(f'({j}%nat, {dur.hex()}%float, {dt.hex()}%float, {"true" if present else "false"})'); fmetas.append(dict(dt=str(dtf), k=k, calls=j, present=present))
+                if present != (j < k): overrun.append((str(dtf), k, j, present))
+                if not present: break
+    bad = ctx.coq_mismatches('c14float', IMPORTS, 'nat * PrimFloat.float * PrimFloat.float * bool', fterms,
+                             "From Coq Require Import PrimFloat.\nDefinition ok (c : nat * PrimFloat.float * PrimFloat.float * bool) : bool := let '(n, d, dt, b) := c in Bool.eqb (float_edge_kept n d dt) b.", shard=300)
+    for j in bad[:3]: ctx.broke('correspondence', 'presence of a timed edge after n calls of the real end_pairs differs from float_edge_kept (binary64 count-down)', repr(fmetas[j]))
+    ctx.cov['binary64_countdown_replayed'] = len(fterms)
+    if overrun:
+        ctx.violation(f'timed edges do not end after their stated duration k * dt (dt, k, calls of end_pairs, still present): {overrun[:6]}', dict(cases=overrun[:12], finding_key='timed-edges-float-countdown-extra-step'))
     # RandomNet.get_source
     terms = []
     for c in range(ctx.n(40, 600)):
